@@ -80,19 +80,16 @@ impl CompiledDfa {
         self.current_states.push(StateSetID::new(0));
         self.next_states.clear();
         let mut match_start = None;
-        let mut match_end = None;
-        let mut match_terminal_id = None;
+        // The best candidate found so far: (end of the match, end of the match plus the length of
+        // the positive lookahead, terminal id).
+        let mut best: Option<(usize, usize, TerminalID)> = None;
         for (index, c) in char_indices {
             if match_start.is_none() {
                 // A potential match starts always at the first position.
-                // Is is only part of a valid match if match_end is also set in the inner for loop.
                 match_start = Some(index);
             }
 
             for state in self.current_states.iter() {
-                if match_end.is_none() && self.end_states[*state].0 {
-                    match_end = Some(index);
-                }
                 for (cc, next) in &self.states[*state].transitions {
                     if match_char_class(*cc, c) {
                         if !self.next_states.contains(next) {
@@ -127,31 +124,23 @@ impl CompiledDfa {
                                     }
                                 }
                             }
-                            // Update the match end and terminal id if the match is longer or the
-                            // terminal id is lower.
-                            if let Some(match_end_index) = match_end.as_ref() {
-                                match (index + c.len_utf8()).cmp(&(match_end_index + lookahead_len))
-                                {
-                                    std::cmp::Ordering::Greater => {
-                                        match_end = Some(index + c.len_utf8());
-                                        match_terminal_id = Some(self.end_states[*next].1);
-                                    }
-                                    std::cmp::Ordering::Equal => {
-                                        let terminal_id =
-                                            self.priority_of(self.end_states[*next].1);
-                                        if terminal_id
-                                            < self.priority_of(match_terminal_id.unwrap())
-                                        {
-                                            match_terminal_id = Some(self.end_states[*next].1);
-                                        }
-                                    }
-                                    std::cmp::Ordering::Less => {
-                                        match_terminal_id = Some(self.end_states[*next].1);
-                                    }
+                            // A candidate replaces the best one if it extends further (including
+                            // its lookahead) or, at the same extent, belongs to a pattern with
+                            // higher priority.
+                            let end = index + c.len_utf8();
+                            let extent = end + lookahead_len;
+                            let terminal_id = self.end_states[*next].1;
+                            let better = match best {
+                                None => true,
+                                Some((_, best_extent, best_terminal_id)) => {
+                                    extent > best_extent
+                                        || (extent == best_extent
+                                            && self.priority_of(terminal_id)
+                                                < self.priority_of(best_terminal_id))
                                 }
-                            } else {
-                                match_end = Some(index + c.len_utf8());
-                                match_terminal_id = Some(self.end_states[*next].1);
+                            };
+                            if better {
+                                best = Some((end, extent, terminal_id));
                             }
                         }
                     }
@@ -163,11 +152,10 @@ impl CompiledDfa {
                 break;
             }
         }
-        match_terminal_id.map(|match_terminal_id| {
-            // If the terminal id is set, match_start and match_end must always be set as well.
+        best.map(|(match_end, _, match_terminal_id)| {
             Match::new(
                 match_terminal_id.as_usize(),
-                Span::new(match_start.unwrap(), match_end.unwrap()),
+                Span::new(match_start.unwrap(), match_end),
             )
         })
     }
